@@ -120,7 +120,8 @@ def build_harness():
     lock = os.path.join(HARNESS, "Cargo.lock")
     if not os.path.exists(lock):
         import shutil
-        shutil.copy(os.path.join(REPO, "Cargo.lock"), lock)
+        src = os.path.join(REPO, "Cargo.lock")
+        shutil.copy(src if os.path.exists(src) else "/repo/Cargo.lock", lock)   # (a snapshot of HEAD has no untracked lock file)
     rc, out = sh("cargo build --release --offline", cwd=HARNESS, timeout=1800)
     if rc != 0:
         raise BuildError("harness:cargo-build", out[-4000:])
